@@ -190,24 +190,28 @@ class LinkRecorder:
             before = {t: dict(d) for t, d in this.applied_links.items()}
             attrs_before = {n: dict(molecule.nodes[n]) for n in molecule.nodes}
             removed_before = len(this.nodes_to_remove)
+            applied = False
             try:
-                return orig_apply(this, meta_molecule, link, link_to_resid)
+                result = orig_apply(this, meta_molecule, link, link_to_resid)
+                applied = True
+                return result
             finally:
+                # what an APPLIED link wrote is what it explicitly targets; whatever a link that was rejected
+                # (MatchError) left behind is recorded as a leak: nothing may justify it
                 for node in molecule.nodes:
                     old = attrs_before.get(node, {})
                     new = molecule.nodes[node]
                     changed = [[k, tok(v)] for k, v in new.items() if k in ATOM_KEYS and (k not in old or old[k] != v)]
                     if changed:
-                        recorder.ops.append(dict(op="replace", node=int(node), attrs=changed))
+                        recorder.ops.append(dict(op="replace" if applied else "leak", node=int(node), attrs=changed))
                 for node in this.nodes_to_remove[removed_before:]:
-                    recorder.ops.append(dict(op="remove", node=int(node)))
+                    recorder.ops.append(dict(op="remove" if applied else "leak", node=int(node), attrs=[]))
                 for sect, table in this.applied_links.items():
                     for key, value in table.items():
                         if key not in before.get(sect, {}) or before[sect][key] is not value:
                             ixn = value[0]
-                            recorder.ops.append(dict(op="insert", ixn=[sect, [int(a) for a in ixn.atoms],
-                                                                       [tok(p) for p in ixn.parameters],
-                                                                       canon_meta(ixn.meta)]))
+                            ixn = [sect, [int(a) for a in ixn.atoms], [tok(p) for p in ixn.parameters], canon_meta(ixn.meta)]
+                            recorder.ops.append(dict(op="insert", ixn=ixn) if applied else dict(op="leak", node=-1, attrs=[], ixn=ixn))
 
         def excl_wrapped(molecule):
             recorder.pre_excl = dump_mol(molecule)
@@ -294,11 +298,15 @@ def read_itp(text):
     return out
 
 
-def run_gen_params(files, graph, mods, name="verif", argv=None):
-    """end to end through the public `gen_params`; returns dict(ok, text|err)"""
+def run_gen_params(files, graph, mods, name="verif", argv=None, lib=None, shared=None):
+    """end to end through the public `gen_params`; returns dict(ok, text|err).  `shared` = (tmpdir, list object)
+    of an earlier call: the very same `inpath` list is passed again (callers may reuse their list)."""
     from polyply.src.gen_itp import gen_params
     with tempfile.TemporaryDirectory() as tmpdir:
-        paths = write_files(files, tmpdir)
+        if shared is not None:
+            paths = shared
+        else:
+            paths = write_files(files, tmpdir)
         seq = pathlib.Path(tmpdir) / "graph.json"
         seq.write_text(json.dumps(gen.to_json_graph(graph)))
         outpath = pathlib.Path(tmpdir) / "out.itp"
@@ -306,7 +314,7 @@ def run_gen_params(files, graph, mods, name="verif", argv=None):
         sys.argv = argv or ["polyply", "gen_params"]
         sys.stdout = io.StringIO()
         try:
-            gen_params(name=name, outpath=outpath, inpath=paths, lib=None, seq=None, seq_file=seq,
+            gen_params(name=name, outpath=outpath, inpath=paths, lib=lib, seq=None, seq_file=seq,
                        mods=[list(m) for m in (mods or [])])
             if not outpath.exists():
                 return dict(ok=False, err="no-output")
